@@ -318,7 +318,7 @@ Print Assumptions C01_nonfatal_def.
 (* ========================================================================================== *)
 (* shutdown() / forceClose() / forceCloseWithDelay() called from a foreign thread load and store
    state_ in two steps (the x-machine of Conn_Model; Properties_C03.C03_xstep_def and the finding
-   "foreign-close-request-check-then-store").  In histories where the loop thread closes the
+   F-19, key "foreign-close-request-races-close").  In histories where the loop thread closes the
    connection between the two the life-cycle invariant breaks (second DOWN), but the stream
    equations do not: after EVERY history of the x-machine, racy or not, what the peer read ++
    backlog = the blocks sendInLoop took, consumed ++ input buffer = delivered, foreign sends FIFO. *)
